@@ -495,6 +495,47 @@ func C01(r *h.Run) {
 		}
 	}
 
+	// ---- 3b'. what a refused message leaves behind: a stream whose compressed message cannot be
+	// inflated (or inflates beyond the limit) is refused; every buffer it took from the pool goes
+	// back ONCE. A buffer that is in the pool twice is later handed to two overlapping calls, whose
+	// messages then overwrite each other ----
+	for _, proto := range protos {
+		for what, bad := range map[string][]byte{
+			"a compressed message that cannot be inflated":        h.Frame(1, []byte{0x42, 1, 2, 3}),
+			"a compressed message that inflates beyond the limit": h.Frame(1, compressToy("tagA", bytes.Repeat([]byte{7}, 63))),
+			"a compressed message within the limit (the control)": h.Frame(1, compressToy("tagA", []byte{1, 2, 3})),
+		} {
+			cfg := envCfg{Proto: proto, Algo: "tagA", Max: 63}
+			handler := connect.NewClientStreamHandler("/verif.Svc/M", func(_ context.Context, st *connect.ClientStream[h.Raw]) (*connect.Response[h.Raw], error) {
+				for st.Receive() {
+				}
+				if err := st.Err(); err != nil {
+					return nil, err
+				}
+				return connect.NewResponse(&h.Raw{B: []byte("ok")}), nil
+			}, cfg.handlerOpts()...)
+			body := append(h.Frame(0, []byte{9}), bad...)
+			req := httptest.NewRequest("POST", "/verif.Svc/M", bytes.NewReader(body))
+			req.Header.Set("Content-Type", cfg.contentType(false))
+			req.Header.Set(cfg.encodingHeader(false), "tagA")
+			tr := &poolTrace{state: map[*bytes.Buffer]int{}}
+			connect.VerifSetPoolHooks(tr.hooks(false))
+			rec := httptest.NewRecorder()
+			p := safely(func() { handler.ServeHTTP(rec, req) })
+			connect.VerifSetPoolHooks(nil)
+			in := map[string]any{"proto": proto, "kind": "client", "request_encoding": "tagA", "read_limit": 63, "request": "message {09}, then " + what}
+			r.Eval("buffers_after_refused_message", fmt.Sprint(proto, what))
+			if p != nil {
+				r.Fail(h.Failure{Key: "roundtrip/panic-or-hang", Family: "buffers_after_refused_message", What: fmt.Sprint(p), Input: in})
+				continue
+			}
+			r.Sample("buffers_after_refused_message", map[string]any{"in": in, "pool_gets": tr.gets, "pool_puts": tr.puts})
+			for _, pr := range tr.problems {
+				r.Fail(h.Failure{Key: "roundtrip/pooled-buffer-shared", Family: "buffers_after_refused_message", What: pr + " — two later calls can be handed the same buffer, and each then reads the other's message bytes", Input: in})
+			}
+		}
+	}
+
 	// ---- 3c. one *Request value sent several times (a retry, a caller re-using it) with
 	// messages on either side of compress-min-bytes: each attempt's message arrives intact ----
 	for _, proto := range protos {
